@@ -124,8 +124,17 @@ class HGen:
         forever = self.rng.random() < 0.2
         req = self.arg_of(list(required)) if required or \
             self.rng.random() < 0.2 else None
-        self.emit({"op": "job", "name": name, "forever": forever,
-                   "required": req, "scheduler": scheduler})
+        op = {"op": "job", "name": name, "forever": forever,
+              "required": req, "scheduler": scheduler}
+        prev = getattr(self, '_last_set_required', None)
+        if prev is not None and self.rng.random() < 0.3 and not required:
+            # a second job built from the very same set object
+            op["required"], op["share_required"] = prev, True
+            req = prev
+        if req is not None and req['t'] == 'set':
+            self._last_set_required = req
+            op["share_required"] = True
+        self.emit(op)
         self.m.new_job(name, forever, req, scheduler)
         if scheduler:
             self.owner[name] = scheduler
@@ -141,6 +150,8 @@ class HGen:
             free = [j for j in self.free_jobs() if self.m.kind[j] == 'job']
             items = rng.sample(free, min(len(free), rng.choice((1, 2))))
         its = [self.ref(i) for i in items]
+        if its and rng.random() < 0.2:
+            its.append(its[0])                  # the same job mentioned twice
         if its and rng.random() < 0.3:
             its.insert(rng.randrange(len(its) + 1), self.none())
         required = None
@@ -198,9 +209,17 @@ class HGen:
                        "items": [arg, self.ref(self.rng.choice(seqs))]}
         if self.rng.random() < 0.1:
             arg = {"t": "list", "items": [arg, self.ref(later)]}   # self
-        self.emit({"op": "requires", "job": later, "arg": arg,
-                   "remove": False})
-        self.m.requires(later, arg)
+        op = {"op": "requires", "job": later, "arg": arg, "remove": False}
+        if more and self.rng.random() < 0.3:
+            # several positional arguments, possibly None among them
+            first = self.rng.choice((self.none(), arg))
+            op["arg"] = first
+            op["more_args"] = [self.ref(self.rng.choice(more))] + (
+                [arg] if first is not arg else [])
+        self.emit(op)
+        self.m.requires(later, op["arg"])
+        for extra in op.get("more_args", ()):
+            self.m.requires(later, extra)
 
     def op_back_edge(self):
         pair = self.same_sched_pair(forward=False)
@@ -325,10 +344,17 @@ class HGen:
                 self.owner[j] = sched
 
     def op_seq_requires(self):
-        cands = [q for q in self.seqs() if self.m.seq[q]]
+        cands = self.seqs()
         if not cands:
             return
         q = self.rng.choice(cands)
+        if not self.m.seq[q]:
+            # still empty: documented as a no-op
+            arg = self.rng.choice((self.none(), self.arg_of(
+                [self.rng.choice(self.jobs())]) if self.jobs()
+                else self.none()))
+            self.emit({"op": "seq_requires", "seq": q, "arg": arg})
+            return
         first = self.m.seq[q][0]
         pool = [j for j in self.jobs() if j not in self.m.seq[q]
                 and self.order_key(j) < self.order_key(first)]
@@ -354,6 +380,8 @@ class HGen:
             names.append(self.op_job())
         if update and rng.random() < 0.5:
             names.append(self.op_job())
+        if update and rng.random() < 0.2:
+            names.append(names[0])              # mentioned twice: once is enough
         items = [self.ref(n) for n in names]
         if update:
             if rng.random() < 0.3:
